@@ -718,6 +718,17 @@ func c02Bounds(s c02Scn) explore.Bounds {
 
 func c02Run(c *fw.Ctx) {
 	scns := c02Scenarios(c.Thorough())
+	if only := os.Getenv("C02_ONLY"); only != "" { // debugging aid: run one slice (name/part) in every worker
+		var sel []c02Scn
+		for _, s := range scns {
+			if fmt.Sprintf("%s/%d", s.name(), s.Part) == only {
+				for i := 0; i < c.NShards; i++ {
+					sel = append(sel, s)
+				}
+			}
+		}
+		scns = sel
+	}
 	c.Bound("scenario_slices", len(scns))
 	c.Bound("sql_fault_kinds", "error,drop,death")
 	c.Bound("rpc_fault_kinds", "rpcerror,transport,status500,truncate,death")
@@ -753,6 +764,18 @@ func c02Run(c *fw.Ctx) {
 		b := c02Bounds(s)
 		st := explore.Explore(b, true, func(r *explore.Run) bool {
 			res := c02Exec(p, r, false, false)
+			// A replayed prefix that does not reproduce means wall-clock time leaked into the run (the client's
+			// 10 s HTTP timeout and pgx's deadlines are real timers; on an overloaded machine they can fire). Re-run the
+			// same prefix twice; only a divergence that persists (or re-runs that disagree) is reported.
+			if r.Diverged != "" && res.harness == "" {
+				c.Count("diverged_executions_rerun", 1)
+				f1, f2 := explore.Replay(r.Trimmed()), explore.Replay(r.Trimmed())
+				res1 := c02Exec(p, f1, false, false)
+				c02Exec(p, f2, false, false)
+				if f1.Diverged == "" && f2.Diverged == "" && strings.Join(f1.Labels(), "\n") == strings.Join(f2.Labels(), "\n") {
+					*r, res = *f1, res1 // the two re-runs agree with each other: the first run was the outlier
+				}
+			}
 			if res.harness != "" {
 				c.HarnessError("scenario %s choices %v: %s", s.name(), r.Trimmed(), res.harness)
 				return false
